@@ -61,6 +61,15 @@ package graph
 //@   less Nodes.Sort$5
 //@   key $x.Info == $y.Info
 
+// ---- C05 (after seeded change flat-sort-loses-abs-for-negative-flat): the flat orders rank by the magnitude of flat first, so
+// that the entries a node count removes are the ones with the smallest |flat| whatever their sign (profile differences) ----
+//@ func Nodes.Sort$1 arith bv nosafety
+//@   requires l != nil && r != nil
+//@   ensures by_abs_flat: ite(l.Flat < 0, -l.Flat, l.Flat) != ite(r.Flat < 0, -r.Flat, r.Flat) ==> (result <==> ite(l.Flat < 0, -l.Flat, l.Flat) > ite(r.Flat < 0, -r.Flat, r.Flat))
+//@ func Nodes.Sort$2 arith bv nosafety
+//@   requires l != nil && r != nil
+//@   ensures by_abs_flat: ite(l.Flat < 0, -l.Flat, l.Flat) != ite(r.Flat < 0, -r.Flat, r.Flat) ==> (result <==> ite(l.Flat < 0, -l.Flat, l.Flat) > ite(r.Flat < 0, -r.Flat, r.Flat))
+
 // ---- C04: flat, cum and edge values ----
 
 //@ func Node.FlatValue arith bv
